@@ -53,6 +53,7 @@ PROP = {
     "assumptions": [
         "functions that TBOX_ASSERT a precondition are only called within it: base64 Encode gets a non-empty input and a non-zero capacity, MD5::update a non-null pointer, AES a 16-byte key/block",
         "a C++ exception (any std::exception) thrown by a decoder on input that the harness's reference parser rejects is a clean failure; on input the reference accepts the decoder must succeed with the reference result",
+        "hex decoders: their only failure channel is an exception, so text the reference decoder rejects (a byte outside [0-9A-Fa-f] at a nibble position, odd digit count, group of more than 2 digits) MUST throw; for the other decoders the next line applies",
         "when a decoder ACCEPTS input the reference rejects (Base64 with '=' in the middle, a dangling '%' in UrlDecode, a 10-byte scalable integer denoting a value > 2^64-1) only memory safety and the bound result <= capacity are asserted; such acceptances are counted (counters obs_*), not reported",
         "capacity-short calls must return the documented failure value (0 / false); whether bytes inside the given capacity are touched on failure is not asserted",
         "hex round trips use delimiters (0..3 characters) that contain no hex digit; RawDataToHexStr lengths are <= 65535 (uint16_t parameter), about 0.2 % of the rapidcheck cases use 12000..65535 bytes",
